@@ -1,8 +1,13 @@
 /- Driver for C09.
    `S` lines: the real qmail-remote smtp() against a scripted server — compared with `smtpRun`
    (report bytes, bytes received by the server, exit status, and the relayed line of qmail-rspawn's
-   report()); the property predicates `verdictOK/kSound/rcptOrder` (Nq.Spec.RemoteVerdict) are evaluated
-   on what the implementation printed, against the line-based reading of the server's stream.
+   report()); the property predicates `verdictOK (expect …)/kSound/rcptOrder/wireOrderQ` (Nq.Spec.RemoteVerdict)
+   are evaluated — strictly, also when the QUIT write fails — on what the implementation printed, against
+   the line-based reading of the server's stream. The model is told on which side of `flagcritical = 1` a
+   failing write of blast() happened (harness label body/final); the oracle is not: it relabels such a
+   write from its bytes (`critWrite`: does it carry the last byte of the encoded message?).
+   The one open finding (a failing QUIT write replaces a decided K/D by "connection died") is tagged
+   `known=C09-quit-write-failure` on its ORACLE line, for exactly that case.
    `R` lines: the real qmail-rspawn report() — compared with `rreport`; predicates
    `rspawnSound/rspawnClasses/noUpgrade` on the implementation's line.
    Line formats: see harness/c09_remote.c -/
@@ -61,12 +66,24 @@ def parseOut (out : Bytes) : Option Obs :=
       some ⟨rl, headB m, hasInfix dupMark m⟩
     else none
 
+/-- the failing write as the oracle sees it: a write inside blast() is critical iff its bytes say so -/
+def oracleLabel (a : Args) (msg wire wtry : Bytes) (wf : Option WPoint) : Option WPoint :=
+  oracleWf wf ((rblast msg).isSome && !a.msgErr && critWrite a (encodedBody msg) wire wtry)
+
+/-- exactly the open finding: the failing write is the QUIT, the rules had decided K or D, nothing else
+    is wrong, and the last report is `dropped()`'s unflagged "connection died" for this host -/
+def isQuitFinding (host : Bytes) (wf : Option WPoint) (wtry : Bytes) (e : Exp) (why : String) (out : Bytes) : Bool :=
+  wf == some .quit && wtry == quitCmd && (e.v == .K || e.v == .D) && why == "wrong_class," &&
+  (records [] out).getLast? == some (droppedRep host false)
+
+def knownTag : String := " known=C09-quit-write-failure"
+
 def handleS (st : Stats) (line : String) (f : List String) : IO Stats := do
   match f with
-  | [_, ipS, heloS, senderS, rcptsS, msgS, msgerrS, streamS, chunk, wk, endmode, wlabelS, outS, wireS, exitS, relayS] =>
+  | [_, ipS, heloS, senderS, rcptsS, msgS, msgerrS, streamS, chunk, wk, endmode, wlabelS, wtryS, outS, wireS, exitS, relayS] =>
     match parseIp ipS, unhex heloS, unhex senderS, parseRcpts rcptsS, unhex msgS, unhex streamS,
-          parseWPoint wlabelS, unhex outS, unhex wireS, unhex relayS with
-    | some host, some helo, some sender, some rcpts, some msg, some stream, some wf, some out, some wire, some relay =>
+          parseWPoint wlabelS, unhex outS, unhex wireS, unhex relayS, unhex wtryS with
+    | some host, some helo, some sender, some rcpts, some msg, some stream, some wf, some out, some wire, some relay, some wtry =>
       let a : Args := { host, helo, sender, rcpts, msg, msgErr := msgerrS == "1" }
       let sc : Script := { stream, wfail := wf }
       let inKey := hash (String.intercalate " " [ipS, heloS, senderS, rcptsS, msgS, msgerrS, streamS, wlabelS])
@@ -88,16 +105,20 @@ def handleS (st : Stats) (line : String) (f : List String) : IO Stats := do
         | some cs => (cs, true)
         | none => ((frames .d1 [] stream).map codeNat, false)
       st := st.bump (if wfS then "stream_wellformed" else "stream_garbage")
-      let as : AScript := { codes, n := rcpts.length, msgErr := a.msgErr, msgPartial := (rblast msg).isNone, wfail := wf }
+      let owf := oracleLabel a msg wire wtry wf
+      if owf == some .final then st := st.bump "critical_write_by_bytes"
+      if wf == some .final && owf == some .body then st := st.bump "flag_set_but_write_not_critical"
+      let as : AScript := { codes, n := rcpts.length, msgErr := a.msgErr,
+                            msgPartial := partialMsg msg (rblast msg).isNone, wfail := owf }
       let e := expect as
       let mut why := ""
       if exitS != "0" then why := why ++ "exit_nonzero,"
       match parseOut out with
       | none => why := why ++ "malformed_report_stream,"
       | some o =>
-        if !kSoundQ as o then why := why ++ "K_unsound,"
+        if !kSound as o then why := why ++ "K_unsound,"
         if !rcptOrder as o then why := why ++ "recipient_reports_wrong_or_out_of_order,"
-        if !verdictOKq as o then why := why ++ "wrong_class,"
+        if !verdictOK e.v o then why := why ++ "wrong_class,"
         if o.rl != e.rl then why := why ++ "recipient_classes,"
         if !wireOrderQ a (encodedBody msg) wire o (wf == some .quit) then why := why ++ "commands_out_of_order_or_missing,"
         st := st.bump ("verdict_" ++ String.singleton (Char.ofNat o.ml.toNat) ++ (if o.dup then "_dup" else ""))
@@ -107,15 +128,17 @@ def handleS (st : Stats) (line : String) (f : List String) : IO Stats := do
       if !rspawnClasses 0 out relay then why := why ++ "relay_class,"
       if !noUpgrade out relay then why := why ++ "relay_upgrade,"
       if !relayWithin out relay then why := why ++ "relay_text_not_from_output,"
-      if headB relay == cK && !(((e.v == .K) || (expect (quitOK as)).v == .K) && e.rl.head? == some lR) then why := why ++ "relay_K_but_not_accepted,"
+      if headB relay == cK && !(e.v == .K && e.rl.head? == some lR) then why := why ++ "relay_K_but_not_accepted,"
       if why != "" then
-        IO.println s!"ORACLE kind=S in={streamS} why={why} ip={ipS} helo={heloS} sender={senderS} rcpts={rcptsS} msg={msgS} msgerr={msgerrS} chunk={chunk} wk={wk} endmode={endmode} wlabel={wlabelS} out={outS} wire={wireS} exit={exitS} relay={relayS} expected={verdictStr e.v}"
+        let known := isQuitFinding host wf wtry e why out
+        if known then st := st.bump "known_quit_write_failure"
+        IO.println s!"ORACLE kind=S in={streamS} why={why} ip={ipS} helo={heloS} sender={senderS} rcpts={rcptsS} msg={msgS} msgerr={msgerrS} chunk={chunk} wk={wk} endmode={endmode} wlabel={wlabelS} wtry={wtryS} out={outS} wire={wireS} exit={exitS} relay={relayS} expected={verdictStr e.v}{if known then knownTag else ""}"
         st := { st with oracle := st.oracle + 1 }
       if fresh && st.samples < 3 && wfS && rcpts.length ≥ 2 && stream.contains DASH && codes.length ≥ 5 then
         IO.println s!"SAMPLE kind=S stream={streamS} nrcpt={rcpts.length} wlabel={wlabelS} out={outS} relay={relayS}"
         st := { st with samples := st.samples + 1 }
       return st
-    | _, _, _, _, _, _, _, _, _, _ =>
+    | _, _, _, _, _, _, _, _, _, _, _ =>
       IO.println s!"DISAGREE unparsable line {line}"; return { st with disagree := st.disagree + 1 }
   | _ => IO.println s!"DISAGREE unparsable line {line}"; return { st with disagree := st.disagree + 1 }
 
@@ -165,9 +188,9 @@ def traceStr (t : List (Nat × Bool)) : String :=
     that connects (`preOK`), plus the smtp() predicates when a connection was made. -/
 def handleM (st : Stats) (line : String) (f : List String) : IO Stats := do
   match f with
-  | [_, dnsS, candsS, streamS, wk, wlabelS, outS, wireS, exitS, traceS] =>
-    match dnsS.toInt?, parseCands candsS, unhex streamS, parseWPoint wlabelS, unhex outS, unhex wireS with
-    | some dnsret, some cs, some stream, some wf, some out, some wire =>
+  | [_, dnsS, candsS, streamS, wk, wlabelS, wtryS, outS, wireS, exitS, traceS] =>
+    match dnsS.toInt?, parseCands candsS, unhex streamS, parseWPoint wlabelS, unhex outS, unhex wireS, unhex wtryS with
+    | some dnsret, some cs, some stream, some wf, some out, some wire, some wtry =>
       let a : Args := { host := [], helo := lit "me.example", sender := lit "s@a.example", rcpts := [lit "r0@b.example"],
                         msg := lit "Subject: x\n\nbody\n", msgErr := false }
       let inKey := hash (String.intercalate " " ["M", dnsS, candsS, streamS, wlabelS])
@@ -181,6 +204,7 @@ def handleM (st : Stats) (line : String) (f : List String) : IO Stats := do
         st := { st with disagree := st.disagree + 1 }
       -- oracle
       let mut why := ""
+      let mut known := false
       if exitS != "0" then why := why ++ "exit_nonzero,"
       match parseOut out with
       | none => why := why ++ "malformed_report_stream,"
@@ -192,16 +216,19 @@ def handleM (st : Stats) (line : String) (f : List String) : IO Stats := do
         match connectPhase dnsret (lit "host.example") cs with
         | .connected _ h =>
           let codes := match specCodes stream with | some c => c | none => (frames .d1 [] stream).map codeNat
-          let as : AScript := { codes, n := 1, msgErr := false, msgPartial := false, wfail := wf }
-          if !kSoundQ as o then why := why ++ "K_unsound,"
-          if !verdictOKq as o then why := why ++ "wrong_class,"
+          let as : AScript := { codes, n := 1, msgErr := false, msgPartial := false, wfail := oracleLabel a a.msg wire wtry wf }
+          let whyPre := why
+          if !kSound as o then why := why ++ "K_unsound,"
+          if !verdictOK (expect as).v o then why := why ++ "wrong_class,"
           if !wireOrderQ { a with host := h } (encodedBody a.msg) wire o (wf == some .quit) then why := why ++ "commands_out_of_order_or_missing,"
+          known := whyPre == "" && isQuitFinding h wf wtry (expect as) why out
         | .report _ => if !wire.isEmpty then why := why ++ "wrote_without_connection,"
       if why != "" then
-        IO.println s!"ORACLE kind=M in={streamS} why={why} dnsret={dnsS} cands={candsS} wk={wk} wlabel={wlabelS} out={outS} wire={wireS} exit={exitS} trace={traceS}"
+        if known then st := st.bump "known_quit_write_failure"
+        IO.println s!"ORACLE kind=M in={streamS} why={why} dnsret={dnsS} cands={candsS} wk={wk} wlabel={wlabelS} wtry={wtryS} out={outS} wire={wireS} exit={exitS} trace={traceS}{if known then knownTag else ""}"
         st := { st with oracle := st.oracle + 1 }
       return st
-    | _, _, _, _, _, _ => IO.println s!"DISAGREE unparsable line {line}"; return { st with disagree := st.disagree + 1 }
+    | _, _, _, _, _, _, _ => IO.println s!"DISAGREE unparsable line {line}"; return { st with disagree := st.disagree + 1 }
   | _ => IO.println s!"DISAGREE unparsable line {line}"; return { st with disagree := st.disagree + 1 }
 
 def handle (st : Stats) (line : String) : IO Stats := do
